@@ -111,7 +111,7 @@ ENGINES = {
     "rcdrv": {"path": "engine/rc_driver.cpp", "serves": ["C%02d" % i for i in range(1, 21)],
               "kind": "rapidcheck generator+shrinker over a vector<uint32_t> choice stream; in-process or fork-per-case execution; replay files"},
     "fmtcat": {"path": "harness/fmtcat.cpp", "serves": ["C04"], "kind": "typed statement catalog (167 shapes in 8 TUs) with call-site fmt oracle and codec round trip"},
-    "pattern": {"path": "harness/pattern.cpp", "serves": ["C12"], "kind": "direct + end-to-end PatternFormatter harness with independent reference substitution"},
+    "pattern": {"path": "harness/pattern.cpp", "serves": ["C12", "C13"], "kind": "direct + end-to-end PatternFormatter harness with independent reference substitution"},
     "named": {"path": "harness/named.cpp", "serves": ["C19"], "kind": "named-args / JSON sink harness through a manual backend"},
     "rot": {"path": "harness/rotating.cpp", "serves": ["C14", "C15"], "kind": "RotatingFileSink driver with file-system reference model and two-tier schedule oracle"},
     "alloc": {"path": "harness/alloc_catalog.cpp", "serves": ["C11"], "kind": "allocation-interposed statement catalog (-O2, no sanitizers)"},
@@ -524,6 +524,11 @@ PROPERTIES = {
              "quick": {"cases": 8000, "procs": 8, "maxlen": 260},
              "thorough": {"cases": 150000, "procs": 16, "maxlen": 260}},
             _fuzzjob("tsfmt_fuzz", "tsfmt", 1500000, 4, max_len=1200),
+            # end to end: the time as it reaches a sink through loggers (GMT / local zone America/St_Johns, six timestamp
+            # patterns, a second logger differing in zone or timestamp pattern), against the same libc reference
+            {"bin": "pattern", "params": {"part": "e2e", "must_time": 1, "no_runtime_metadata": 1},
+             "quick": {"cases": 15000, "procs": 3, "maxlen": 400},
+             "thorough": {"cases": 200000, "procs": 8, "maxlen": 400}},
         ],
     },
 }
